@@ -218,6 +218,9 @@ def op_strategy(draw, v, led, weights, backend="file", history=()):
             ps = ps[:draw(st.integers(1, len(ps) - 1))]
         ps = list(draw(st.permutations(ps)))
         if draw(st.integers(0, 5)) == 0:
+            # check_for_corruption=False: the id is documented as ignored (None, False, or a stale one)
+            return ("delete", draw(st.sampled_from([None, False, w, w + 7])), ps, "unchecked")
+        if draw(st.integers(0, 5)) == 0:
             # an inconsistent list: one prefix that is not attached to this webentity, NOT in first position; the request must be
             # refused as a whole (the library's own error) and change nothing
             foreign = [p for p, x in sorted(led.prefix_map.items()) if x != w]
